@@ -35,3 +35,9 @@ Lemma bridge_line_chars :
   ch_code ENQ = Some Gen.secs1.enq /\ ch_code EOT = Some Gen.secs1.eot /\
   ch_code ACK = Some Gen.secs1.ack /\ ch_code NAK = Some Gen.secs1.nak.
 Proof. repeat split; reflexivity. Qed.
+
+(** The same characters in the character-level receive model (C17). *)
+From GoSecs Require Import Secs1.RecvStream.
+Lemma bridge_recv_chars :
+  c_enq = Gen.secs1.enq /\ c_eot = Gen.secs1.eot /\ c_ack = Gen.secs1.ack /\ c_nak = Gen.secs1.nak.
+Proof. repeat split; reflexivity. Qed.
